@@ -112,12 +112,17 @@ func (s *store) close() {
 	os.RemoveAll(s.dir)
 }
 
+// childAggLimits: the aggregation limits the fractions created by newFM are configured with (zero = the testing
+// default; the seq-db binary runs with non-zero defaults, which switch on source counting and the token cache of
+// SourcedNodeIterator.ValueBySource).  Set per case by the child, which handles one line at a time.
+var childAggLimits processor.AggLimits
+
 func newFM(dir string) (*fracmanager.FracManager, error) {
 	if err := os.MkdirAll(dir, 0o755); err != nil {
 		return nil, err
 	}
 	fm := fracmanager.NewFracManager(&fracmanager.Config{DataDir: dir, FracSize: 1 << 30, TotalSize: 1 << 40, ShouldReplay: false,
-		MaintenanceDelay: time.Hour})
+		MaintenanceDelay: time.Hour, Fraction: frac.Config{Search: frac.SearchConfig{AggLimits: frac.AggLimits(childAggLimits)}}})
 	if err := fm.Load(context.Background()); err != nil {
 		return nil, err
 	}
@@ -669,7 +674,11 @@ func runSysBatch(lines []string, ch *vh.Channel, orc *vh.Oracle, rep *vh.Report,
 						break
 					}
 				}
-				rep.Violate(vh.Violation{Site: "seq/qpr.go:SamplesContainer.Merge", Class: "aggregation-differs-from-single-fraction",
+				site := "seq/qpr.go:SamplesContainer.Merge" // same groups, different numbers: the merge of the containers
+				if groupNames(as) != groupNames(bs) { // different group names / totals per name: the text of a source
+					site = "frac/processor/aggregator.go:SourcedNodeIterator.ValueBySource"
+				}
+				rep.Violate(vh.Violation{Site: site, Class: "aggregation-differs-from-single-fraction",
 					What: what, Replay: []string{line}})
 			}
 			continue
@@ -774,4 +783,30 @@ func runSysBatch(lines []string, ch *vh.Channel, orc *vh.Oracle, rep *vh.Report,
 		rep.Violate(vh.Violation{Site: "fracmanager/searcher.go:SearchDocs", Class: "store-process-died",
 			What: fmt.Sprintf("child exited (%v) while processing case %d of %d", err, i+1, len(lines)), Replay: []string{lines[i]}})
 	}
+}
+
+// groupNames: the bucket names with their value counts of every answer (mid~token~sum~total~notExists bins)
+func groupNames(answers []string) string {
+	var out []string
+	for _, a := range answers {
+		i := strings.Index(a, ": ")
+		if i < 0 {
+			continue
+		}
+		var names []string
+		for _, agg := range strings.Split(a[i+2:], "&") {
+			nb := strings.SplitN(agg, "#", 2)
+			if len(nb) != 2 {
+				continue
+			}
+			for _, b := range splitList(nb[1], "+") {
+				f := strings.Split(b, "~")
+				if len(f) == 5 {
+					names = append(names, f[1]+"x"+f[3])
+				}
+			}
+		}
+		out = append(out, strings.Join(names, ","))
+	}
+	return strings.Join(out, ";")
 }
